@@ -563,3 +563,68 @@ func (c *Ctx) wholeFileWrites(rule string, roots []*ssa.Function) int {
 	}
 	return nOpen
 }
+
+// marshalSite is a place in fn where the golden measurement is serialised: a proto.Marshal call in fn itself, or a
+// call of an unexported same-package helper that marshals the document it is given and returns those bytes as its
+// first result (sealDoc(doc, …) ([]byte, error)).
+type marshalSite struct {
+	site     *ssa.Call     // the call in fn whose result #0 are the bytes
+	inner    *ssa.Call     // the proto.Marshal call (== site when fn marshals itself)
+	helper   *ssa.Function // nil when fn marshals itself
+	docParam int           // index of the helper parameter that is marshalled
+}
+
+func (c *Ctx) goldenMarshalSites(fn *ssa.Function, epbPkg string) []marshalSite {
+	isMarshal := func(call ssa.CallInstruction) bool {
+		return calleeIs(call, "google.golang.org/protobuf/proto.Marshal") && typeMentions(call.Common().Args[0], epbPkg, "VMGoldenMeasurement")
+	}
+	var out []marshalSite
+	for _, call := range callsIn(fn, func(call ssa.CallInstruction) bool { return true }) {
+		cv, ok := call.(*ssa.Call)
+		if !ok {
+			continue
+		}
+		if isMarshal(call) {
+			out = append(out, marshalSite{site: cv, inner: cv, docParam: -1})
+			continue
+		}
+		g := call.Common().StaticCallee()
+		if g == nil || g.Pkg != fn.Pkg || g.Blocks == nil || (g.Object() != nil && g.Object().Exported()) {
+			continue
+		}
+		ms := callsIn(g, isMarshal)
+		if len(ms) != 1 {
+			continue
+		}
+		inner := ms[0].(*ssa.Call)
+		doc := unwrapIface(inner.Call.Args[0])
+		dp := -1
+		for i, p := range g.Params {
+			if ssa.Value(p) == doc {
+				dp = i
+			}
+		}
+		if dp < 0 {
+			continue
+		}
+		// every return hands back the marshal result itself (or nil with an error)
+		okRet := true
+		for _, b := range g.Blocks {
+			ret, isRet := b.Instrs[len(b.Instrs)-1].(*ssa.Return)
+			if !isRet || len(ret.Results) == 0 {
+				continue
+			}
+			r0 := ret.Results[0]
+			if k, isK := r0.(*ssa.Const); isK && k.IsNil() {
+				continue
+			}
+			if ex, isEx := r0.(*ssa.Extract); !isEx || ex.Tuple != ssa.Value(inner) || ex.Index != 0 {
+				okRet = false
+			}
+		}
+		if okRet {
+			out = append(out, marshalSite{site: cv, inner: inner, helper: g, docParam: dp})
+		}
+	}
+	return out
+}
